@@ -17,6 +17,7 @@ use swiftness_stark::types::StarkProof;
 pub struct EditSpec {
     /// 0 truncate, 1 empty, 2 shift (drop first), 3 extend, 4 delete at, 5 scalar extreme,
     /// 6 scalar := a length-derived value, 7 toggle dynamic params, 8 consistent re-declaration,
+    /// 10 a continuous-page header appended (zero / one / PRF product, small / extreme size),
     /// 9 one structural dynamic parameter (uses_*, *_row_ratio, num_columns_*, cpu_component_step) set to a small/extreme value
     pub kind: u8,
     pub target: u16,
@@ -188,7 +189,20 @@ pub fn apply_script(img: &mut Value, edits: &[EditSpec], dyn_params: Option<&Val
     for (ei, e) in edits.iter().enumerate() {
         let (slots, vecs) = enumerate(img);
         let es = mix(seed, ei as u64);
-        match e.kind % 10 {
+        match e.kind % 11 {
+            10 => {
+                // a continuous-page header (the shipped proofs have none): prover-supplied product / size
+                let hdr = json!({
+                    "start_address": felt_str(&extreme_felt(e.n)),
+                    "size": felt_str(&[Felt::ZERO, Felt::ONE, Felt::from(7u64), extreme_felt(e.val)][(e.target % 4) as usize]),
+                    "hash": felt_str(&prf_felt(es, 3)),
+                    "prod": felt_str(&[Felt::ZERO, Felt::ONE, prf_felt(es, 4)][(e.val % 3) as usize]),
+                });
+                if let Some(a) = img.pointer_mut("/public_input/continuous_page_headers").and_then(|v| v.as_array_mut()) {
+                    a.push(hdr);
+                    applied.push(format!("add:page_header(prod_sel={})", e.val % 3));
+                }
+            }
             9 => {
                 // the dynamic layout's structural parameters (builtin switches, row ratios, step, columns)
                 match img.pointer("/public_input/dynamic_params").and_then(|d| d.as_object()) {
@@ -215,7 +229,7 @@ pub fn apply_script(img: &mut Value, edits: &[EditSpec], dyn_params: Option<&Val
                     continue;
                 }
                 let v = &vecs[pick(e.target, vecs.len())];
-                let edit = match e.kind % 10 {
+                let edit = match e.kind % 11 {
                     0 => {
                         let len = match e.val % 4 {
                             0 => 0,
@@ -239,7 +253,7 @@ pub fn apply_script(img: &mut Value, edits: &[EditSpec], dyn_params: Option<&Val
                     continue;
                 }
                 let s = &slots[pick(e.target, slots.len())];
-                let val = if e.kind % 10 == 5 {
+                let val = if e.kind % 11 == 5 {
                     match s.kind {
                         SlotKind::Felt => felt_str(&extreme_felt(e.val)),
                         SlotKind::U8 => (extreme_u64(e.val) & 0xff).to_string(),
@@ -373,7 +387,7 @@ pub fn check(env: &Env, c: &Case) -> Outcome {
 
 pub fn strategy() -> impl Strategy<Value = Case> {
     let edit = (
-        prop_oneof![2 => 0u8..5, 3 => 5u8..7, 1 => Just(7u8), 3 => Just(8u8), 2 => Just(9u8)],
+        prop_oneof![2 => 0u8..5, 3 => 5u8..7, 1 => Just(7u8), 3 => Just(8u8), 2 => Just(9u8), 1 => Just(10u8)],
         any::<u16>(),
         any::<u8>(),
         any::<u8>(),
